@@ -583,6 +583,59 @@ def rule_g(repo, chk):
     chk.notes['navigator_results'] = n_results
 
 
+def rule_h(repo, chk):
+    chk.clause('C01.h', 'sibling interface: every root (module-like) context class provides what the result wrappers in jedi/api read from '
+                        '`get_root_context()` / the module context (code_lines, py__file__, string_names, is_stub, is_builtins_module, py__name__, get_value)')
+    base = repo.cls('jedi.inference.context', 'AbstractContext')
+    # what api/classes.py and api/__init__.py read from a root context
+    used = set()
+    for modname in ('jedi.api.classes', 'jedi.api', 'jedi.api.completion', 'jedi.api.helpers'):
+        for x in ast.walk(repo.module(modname).tree):
+            if isinstance(x, ast.Attribute) and isinstance(x.value, ast.Call) and call_name(x.value) in ('get_root_context', '_get_module_context'):
+                used.add(x.attr)
+    used -= {'create_context', 'create_name', 'create_value', 'tree_node', 'inference_state', 'get_filters', 'is_compiled', 'as_context'}
+    chk.floor('C01.h', len(used), 3, '(attributes read from root contexts)')
+    chk.notes['root_context_attributes_used'] = sorted(used)
+    n = 0
+    for ci in [base] + repo.subclasses(base):
+        nm = ci.node.name
+        if not ('Module' in nm or 'Namespace' in nm) or nm.startswith('Abstract'):
+            continue
+        n += 1
+        have = {a for c in repo.mro(ci) for a in list(c.methods) + list(c.attrs)}
+        # annotations without value on the class (declared, not defined) do not count
+        missing = sorted(a for a in used if a not in have)
+        chk.ob('C01.h', not missing, ci.node, 'root context class %s defines everything the API wrappers read (%s)' % (ci.qual, ', '.join(sorted(used))),
+               'missing: %s' % missing, key='root-context|%s' % ci.key)
+    chk.floor('C01.h', n, 5, '(root context classes)')
+
+
+def rule_i(repo, chk):
+    chk.clause('C01.i', 'evaluating literals of the analysed source cannot raise: every call of ast.literal_eval sits in a try that catches '
+                        'SyntaxError and ValueError (parso tokenises literals such as "\\x" that Python rejects); what reaches inspect.cleandoc is a str')
+    n = 0
+    for c in repo.all_calls():
+        if repo.resolve(c.func) == 'ast.literal_eval':
+            n += 1
+            f = repo.enclosing_func(c)
+            st = repo.enclosing_stmt(c)
+            caught = set()
+            for t in enclosing_handlers(st, f) if f is not None else []:
+                for h in t.handlers:
+                    caught |= handler_types(h)
+            ok = bool(caught & {'Exception', 'BaseException', '*'}) or {'SyntaxError', 'ValueError'} <= caught
+            chk.ob('C01.i', ok, c, '`%s` is guarded against SyntaxError and ValueError' % short(c, 40), 'handlers around it catch: %s' % sorted(caught))
+    chk.floor('C01.i', n, 1, '(literal_eval call sites)')
+    for c in repo.all_calls():
+        if repo.resolve(c.func) == 'inspect.cleandoc' and c._mod.name == 'jedi.parser_utils':
+            f = repo.enclosing_func(c)
+            a = c.args[0] if c.args else None
+            w = gate(f, c, lambda e, pol: (pol and isinstance(e, ast.Call) and call_name(e) == 'isinstance' and norm(e.args[0]) == norm(a) and norm(e.args[1]) == 'str')
+                     or ((not pol) and isinstance(e, ast.UnaryOp))) if a is not None else 'no argument'
+            # `if not isinstance(doc, str): return ''` appears as test isinstance(...) with the False edge leaving
+            chk.ob('C01.i', w is None, c, 'inspect.cleandoc receives a str (a bytes literal in docstring position is not a docstring)', w or '')
+
+
 def thorough(repo, chk):
     rule_e(repo, chk, all_versions=True)
 
@@ -595,4 +648,4 @@ def describe(chk):
 
 
 RULES = [('C01.a', rule_a), ('C01.b', rule_b), ('C01.c', rule_c), ('C01.d', rule_d), ('C01.e', rule_e), ('C01.f', rule_f),
-         ('C01.g', rule_g)]
+         ('C01.g', rule_g), ('C01.h', rule_h), ('C01.i', rule_i)]
